@@ -26,9 +26,14 @@ func c19Apply(ops []interface{}) {
 
 // Harness_C19_JSONPatch: one RFC 6902 operation with arbitrary kind, members present or absent, pointers of
 // depth 0..2 with symbolic tokens (including array indices, "-", negative numbers).
-func Harness_C19_JSONPatch() {
-	firstLens = []int{1, 7, 9}
-	nextLens = []int{1, 2}
+func Harness_C19_JSONPatch() { c19JSONPatch([]int{1, 9}, []int{1}) }
+
+// HarnessT_C19_JSONPatchWide: longer tokens (two-character indices such as -1 and 10, every member-name length).
+func HarnessT_C19_JSONPatchWide() { c19JSONPatch([]int{0, 1, 2, 7, 9, 11}, []int{1, 2}) }
+
+func c19JSONPatch(first, next []int) {
+	firstLens, nextLens = first, next
+	withLead = false
 	op := anyOp("op0")
 	if verifrt.Choose("drop-value", 2) == 1 {
 		delete(op, "value")
@@ -53,4 +58,16 @@ func Harness_C19_JSONPatchMembers() {
 		entry = odd // the operation itself is not an object
 	}
 	c19Apply([]interface{}{entry})
+}
+
+// HarnessT_C19_JSONPatchHugeIndex: array index tokens denoting huge numbers ("huge values"); one symbolic
+// leading digit, the magnitude chosen from fixed sizes (64-bit multiplication chains over ten symbolic digits do
+// not finish in the solver).
+func HarnessT_C19_JSONPatchHugeIndex() {
+	d := verifrt.AnyStr("lead-digit", 1)
+	verifrt.Assume(d[0] >= '1' && d[0] <= '9')
+	idx := d + []string{"0000000000", "00000000000000000000"}[verifrt.Choose("magnitude", 2)]
+	kind := []string{"add", "replace", "move", "copy", "remove", "test"}[verifrt.Choose("kind", 6)]
+	op := map[string]interface{}{"op": kind, "path": "/a/" + idx, "from": "/x", "value": "v"}
+	c19Apply([]interface{}{op})
 }
